@@ -6,6 +6,7 @@
 #include <etl/_type_traits/common_type.hpp>
 #include <etl/_type_traits/is_integral.hpp>
 #include <etl/_type_traits/is_same.hpp>
+#include <etl/_type_traits/make_unsigned.hpp>
 
 namespace etl {
 
@@ -19,7 +20,18 @@ template <typename M, typename N>
     requires(is_integral_v<M> and not is_same_v<M, bool> and is_integral_v<N> and not is_same_v<N, bool>)
 [[nodiscard]] constexpr auto lcm(M m, N n) -> common_type_t<M, N>
 {
-    return (m * n) / gcd(m, n);
+    using R = common_type_t<M, N>;
+    using U = make_unsigned_t<R>;
+
+    if (m == M(0) or n == N(0)) {
+        return R(0);
+    }
+
+    // divide first: |m| / gcd * |n| does not overflow when the result is representable
+    auto const a = etl::detail::gcd_abs<U>(m);
+    auto const b = etl::detail::gcd_abs<U>(n);
+    auto const g = etl::gcd(a, b);
+    return static_cast<R>(static_cast<U>(static_cast<U>(a / g) * b));
 }
 
 } // namespace etl
